@@ -428,7 +428,8 @@ def scenario(ctx):
 		interrupt_at = ch.int(1, max(1, n), L + '.int_at') if (n and ch.flip(0.07, L + '.interrupt')) else None
 		progress = _progress(ch)
 		# thread flavour: half of the executions pre-empt task bodies at line events instead of running them atomically
-		interleave = mode in ('threads', 'exec-threads') and n <= 50 and ch.flip(0.4, L + '.interleave')
+		# (no interleaving when a named pipe is among the inputs: two readers parked on one pipe is a property of pipes, not of gambit)
+		interleave = mode in ('threads', 'exec-threads') and n <= 50 and not ctx.fifo_data and ch.flip(0.4, L + '.interleave')
 		quantum = ch.pick([60, 12, 500], L + '.quantum') if interleave else 200
 		cancel_at = ch.int(1, max(1, n), L + '.cancel_at') if (n and mode.startswith('exec') and ch.flip(0.08, L + '.cancel')) else None
 		defer = mode != 'seq' and ch.flip(0.5, L + '.defer_callbacks')
